@@ -172,10 +172,14 @@ class time_limit:
     """promptness watchdog for in-process implementation calls: SIGALRM after `sec` seconds raises Hang in the running call
     (CPython's regular-expression engine and every pure-Python loop poll for signals)"""
 
+    fired = 0          # hangs seen so far in this process: after three, later calls get a short limit (a hanging library is already a
+    #                    violation with three witnesses; waiting a full limit for every further input only delays the verdict)
+
     def __init__(self, sec):
-        self.sec = sec
+        self.sec = sec if time_limit.fired < 3 else min(sec, 3.0)
 
     def _fire(self, signum, frame):
+        time_limit.fired += 1
         raise Hang()
 
     def __enter__(self):
